@@ -179,6 +179,7 @@ fn run_one<D: Doc>(bytes: &[u8], eps: bool) -> Result<Out, String> {
 
 /// Ok(None) = case not applicable (tag of another variant / unknown family): not executed.
 fn exec<D: Doc>(p: &PrepDocLite<D>, rows: &[TagRow], w: &[Option<Vec<u64>>], tag_row: usize, tag: u64, eps: bool) -> Result<Option<(u64, &'static str)>, Violation> {
+    crate::ctx::scrub_stack();
     let Some(row) = rows.get(tag_row) else { return Ok(None) };
     let Some(fam) = row.family else { return Ok(None) };
     let Some(wset) = &w[fam] else { return Ok(None) };
